@@ -148,6 +148,11 @@ fn f_subs(prop: &'static str) -> Vec<(FSub, u32, u32, usize)> {
             (f("c11-timeout-st", None, true), 48, 400, 16),
             (f("c11-timeout-mt", Some(4), true), 32, 300, 16),
         ],
+        "C06" => vec![
+            // co-simulation: an inner run that fails must not make the outer run look stalled
+            (f("c06-nested-st", None, false), 30_000, 600_000, 16),
+            (f("c06-nested-mt", Some(4), false), 3000, 60_000, 4),
+        ],
         "C16" => vec![
             (f("c16-fault-names-st", None, false), 30_000, 600_000, 16),
             (f("c16-fault-names-mt", Some(4), false), 3000, 60_000, 4),
@@ -173,7 +178,7 @@ fn rule_for(prop: &str) -> &'static str {
         "C03" => "class-M cases; oracle = per-command multiset of handler invocations (model, kind, id, via, script, ttl) and sink contents == sequential expansion of the injected messages, both directions; non-trivial = a broadcast with >=2 accepting and >=1 filtering connections AND a suspended port operation; distinct = hash of the JSON case",
         "C04" => "class-M cases on ST (LIFO/FIFO/random picks) and MT (4, 8, 16 workers, seeded delays at executor protocol points); oracle = at every Ok return each begun handler has ended, handler/sink multisets == expansion (hence identical across executors), acyclic benches never stall; non-trivial = >=3 models active in one command AND a suspended port operation (MT: AND >=2 worker threads ran handlers); distinct = hash of the JSON case",
         "C05" => "class-M cases; oracle = per-model busy flag (swap at handler entry) and strict Begin/Op/End nesting of every model's records in the global stamp order, init included; non-trivial = a model ran >=2 handlers in one command AND (a suspended operation OR handlers of that model on >=2 threads); distinct = hash of the JSON case",
-        "C06" => "class-M cyclic cases (loops, self queries, orphan mailboxes, sub-models) kicked off by process_* and by init, plus acyclic cases that must never report a stall; oracle = mailbox accounting at quiescence: queued(X) = min(capacity(X), started sends to X - handlers begun by X), Deadlock must list exactly the simulation's models with queued>0 by qualified name and size, MessageLoss(n) only when all n sit in orphan mailboxes, Ok iff nothing is queued; non-trivial = the run ended in Deadlock/MessageLoss, or completed with >=3 active models and a suspended operation; distinct = hash of the JSON case",
+        "C06" => "class-M cyclic cases (loops, self queries, orphan mailboxes, sub-models) kicked off by process_* and by init, plus acyclic cases that must never report a stall; oracle = mailbox accounting at quiescence: queued(X) = min(capacity(X), started sends to X - handlers begun by X), Deadlock must list exactly the simulation's models with queued>0 by qualified name and size, MessageLoss(n) only when all n sit in orphan mailboxes, Ok iff nothing is queued; non-trivial = the run ended in Deadlock/MessageLoss, or completed with >=3 active models and a suspended operation. c06-nested: class-F cases with a co-simulation whose inner run fails (model panic or MessageLoss): the outer run, in which every message is processed, must not be reported as Deadlock/MessageLoss; non-trivial = the bench contains such a failing inner run; distinct = hash of the JSON case",
         "C12" => "c12-queue-seq: generated push/pop/len sequences (1-600 ops, capacities 1-69, one close at a generated position) on the real channel/queue.rs against a VecDeque model (Full gives the message back, Closed after close, accepted messages stay receivable, len() == held, never above capacity); non-trivial = a push met a full queue AND the ring buffer wrapped around. c12-queue-mpsc: 1-3 producer threads pushing 1-3000 numbered messages each with retry on Full, one consumer; per-producer FIFO, exactly once, nothing accepted is lost (also when the consumer closes the queue while producers are pushing), len() == 0 once drained, Closed after close; non-trivial = >=2 producers AND a producer met a full queue; distinct = hash of the JSON case",
         "C15" => "one model, 20-400 events at generated increments (1 ns .. 4.3 s, many carrying into the seconds; start 999_999_000 ns before a second boundary), 1-3 reader threads spinning on Scheduler::time() while the driver steps; oracle = every value read is a time the simulation had, a reader's values never decrease, the read made after the last step returns the final time, handlers read a valid time; non-trivial = a reader saw >=3 distinct times AND two consecutive observations differing in the seconds. c08-race (run for C15): threads that schedule through Scheduler handles while step/step_until run never read an older time than they have already read; distinct = hash of the JSON case",
         "C14" => "class-M cases with 0-6 repliers per requestor (plain/map/filter_map) and with connections added between commands through detached clones of the models' output ports; oracle = reply list of every query == (replier, reply id computed from the mapped request, via) in connection order, process_query reply, and handler multisets that include deliveries through clone-added connections; non-trivial = a query with >=2 repliers and >=1 filtered out, or a clone-added connection in a case with >2 handlers; distinct = hash of the JSON case",
@@ -271,8 +276,8 @@ fn run_property(prop: &'static str, tier: &str, seed: u64) -> i32 {
                 let n = ctx.n(q, t);
                 ctx.run(&s, n, w);
             }
-            if prop == "C16" {
-                // names in failure reports (panic / send to a dropped mailbox in a hierarchy)
+            if prop == "C16" || prop == "C06" {
+                // names in failure reports (C16); co-simulation with a failing inner run (C06) (panic / send to a dropped mailbox in a hierarchy)
                 for (s, q, t, w) in f_subs(prop) {
                     let n = ctx.n(q, t);
                     ctx.run(&s, n, w);
